@@ -97,8 +97,9 @@ class Walker:
     stop(elem) -> True ends a run at that element (before executing it).
     choose(cond_elem, env) -> True / False / None: the edge to take for a condition whose value is unknown (None: both)."""
 
-    def __init__(self, func, tracked, stop, choose=None, limit=20000):
+    def __init__(self, func, tracked, stop, choose=None, limit=20000, watch=None):
         self.f = func
+        self.watch = watch      # watch(elem, env): called for every element about to be executed
         self.tracked = tracked
         self.stop = stop
         self.choose = choose or (lambda c, env: None)
@@ -175,6 +176,8 @@ class Walker:
                     out.append(("stop", e, env))
                     done = True
                     break
+                if self.watch is not None:
+                    self.watch(e, env)
                 if e.cls == "ReturnStmt":
                     out.append(("ret", ev(norm(e.kid(0)), env) if e.kids else None, env))
                     done = True
